@@ -435,11 +435,12 @@ def R_labelblock(toks, label):
             while e < len(head):
                 u = head[e]
                 if u.kind == "punct" and u.text in OPEN: e = match_close(head, e) + 1; continue
-                if u.text == ";": break
+                if u.text in (";", ",", "}", ")", "]"): break
                 e += 1
             expr = head[j+2:e]
             new_head += _mk(["{", var, "="], t) + expr + _mk([";", "break", ";", "}"], t, " ")
-            j = e + 1; continue
+            j = e + 1 if (e < len(head) and head[e].text == ";") else e
+            continue
         new_head.append(t); j += 1
     like = out[lt]
     decl = _mk(["let", var], like)
@@ -452,4 +453,42 @@ def R_labelblock(toks, label):
         + _mk([var, "="], tail[0], "\n        ") + tail + _mk([";", "break", ";"], tail[-1], "") + _mk(["}"], like, "\n    ") \
         + _mk(["let"], like, "\n    ") + pat + _mk(["=", var, ";"], like, " ") + out[bc+2:]
     for x in pat[:1]: x.pre = " "
+    return res, 1
+
+
+def R_asyncimm(toks, label):
+    """an immediately awaited async block  `async { S1?; …; E }.await`  becomes the labelled block
+         'l: { match S1 { Ok(v) => v, Err(e) => break 'l Err(e) }; …; E }
+    (inside an async block `?` leaves the BLOCK with the error; the rewritten text only type-checks when the `?` converts between
+    identical error types, which rustc/Verus then enforce). Followed by R-labelblock."""
+    lab = "'" + label
+    out = list(toks)
+    k = None
+    for i in range(len(out) - 1):
+        if out[i].text == "async" and out[i+1].text == "{":
+            k = i; break
+    if k is None: return toks, 0
+    bo = k + 1; bc = match_close(out, bo)
+    if not (out[bc+1].text == "." and out[bc+2].text == "await"):
+        raise ScanError("R-asyncimm: the async block is not awaited immediately")
+    body = out[bo+1:bc]
+    new_body = []; j = 0; stmt_start = 0
+    while j < len(body):
+        t = body[j]
+        if t.kind == "punct" and t.text in OPEN:
+            e = match_close(body, j); new_body.extend(body[j:e+1]); j = e + 1; continue
+        if t.text == "?" and j + 1 < len(body) and body[j+1].text == ";":
+            expr = new_body[stmt_start:]
+            del new_body[stmt_start:]
+            arm = _mk(["{", "Ok", "(", "v", ")", "=", ">", "v", ",", "Err", "(", "e", ")", "=", ">", "break", lab, "Err", "(", "e", ")", "}"], t, " ")
+            for x in arm:
+                if x.text == ">": x.pre = ""
+            new_body += _mk(["match"], expr[0]) + expr + arm
+            new_body[stmt_start+1].pre = " "
+            j += 1; continue
+        new_body.append(t)
+        if t.text == ";": stmt_start = len(new_body)
+        j += 1
+    res = out[:k] + _mk([lab, ":"], out[k]) + [out[bo]] + new_body + [out[bc]] + out[bc+3:]
+    res[k+1].pre = ""
     return res, 1
